@@ -523,7 +523,14 @@ impl Acct {
             self.check_broadcast(rec, &sends, k, hcfg, acc)?;
         }
         while let Some((to, p)) = sends.pop_front() {
-            let p = p.map_err(|e| V::new("desync", e))?;
+            let p = match p {
+                Ok(p) => p,
+                // header and member section parse but the custom-broadcast tail does not consist of whole items
+                Err(e) if self.arm16 && e.starts_with("tail:") => {
+                    return Err(V::new("C16/tail-not-whole-items", format!("datagram to {to:?}: {e}")));
+                }
+                Err(e) => return Err(V::new("desync", e)),
+            };
             self.account(&to, &p, mps, hcfg, acc)?;
         }
 
